@@ -69,3 +69,30 @@ Example C18_example :
   seg_dist 0x24%N 0x7f%N true = 3 /\ seg_dist 0x24%N 0x7f%N false = 1 /\
   seg_dist 8%N 7%N true = -1.
 Proof. repeat split. Qed.
+
+(** Tie to the source by translation: Gen/SubseqGen.v is regenerated from
+    utils/subsequences.py on every run (translator/pyfun.py, translator/subseq_gen.py);
+    the generated functions equal the hand-written model for all inputs, error cases
+    included, and the fuel of the translated [while] loop is always sufficient. *)
+From SR Require Import Gen.SubseqGen Proofs.SubseqGenProofs.
+
+Theorem C18_gen_subseq_complete : forall (A : Type) (l : list A),
+  gen_subseq_complete l = Ok (Z.of_N (subseq_complete l)).
+Proof. exact @gen_subseq_complete_eq. Qed.
+Print Assumptions C18_gen_subseq_complete.
+
+Theorem C18_gen_mask_from_subseq : forall (A : Type) (eqb : A -> A -> bool) (child parent : list A),
+  gen_mask_from_subseq eqb child parent = Ok (mask_from_subseq eqb child parent).
+Proof. exact @gen_mask_from_subseq_eq. Qed.
+Print Assumptions C18_gen_mask_from_subseq.
+
+Theorem C18_gen_subseq_from_mask : forall (A : Type) (m : N) (parent : list A),
+  gen_subseq_from_mask m parent =
+    match subseq_from_mask m parent with Some l => Ok l | None => Err IndexError end.
+Proof. exact @gen_subseq_from_mask_eq. Qed.
+Print Assumptions C18_gen_subseq_from_mask.
+
+Theorem C18_gen_subseq_segment_dist : forall (child parent : N) (edges : bool),
+  gen_subseq_segment_dist child parent edges = Ok (seg_dist child parent edges).
+Proof. exact gen_subseq_segment_dist_eq. Qed.
+Print Assumptions C18_gen_subseq_segment_dist.
